@@ -54,17 +54,33 @@ func runBatchChild(bc BatchCase) (*execgen.BatchResult, string, error) {
 
 // runBatchChildN also returns the number of race reports attributed to known finding FX8.
 func runBatchChildN(bc BatchCase) (*execgen.BatchResult, string, int, error) {
-	// the reference: every program ALONE with a fresh program cache, in its own fresh process
-	alone := bc.Job
-	alone.AloneOnly, alone.Alone = true, nil
-	ref := execgen.RunChild(execgen.Job{Mode: execgen.ModeBatch, Batch: &alone}, execgen.ChildOpts{Timeout: 15 * time.Minute})
+	alone, fail, out, err := aloneReference(bc)
+	if err != nil {
+		return nil, out, 0, err
+	}
+	if fail != nil {
+		return fail, out, 0, nil
+	}
+	return runBatchAgainst(bc, alone)
+}
+
+// aloneReference: every program ALONE with a fresh program cache, in its own fresh process
+// (fail is the result carrying a set-up failure).
+func aloneReference(bc BatchCase) (alone []execgen.StepTrace, fail *execgen.BatchResult, out string, err error) {
+	job := bc.Job
+	job.AloneOnly, job.Alone = true, nil
+	ref := execgen.RunChild(execgen.Job{Mode: execgen.ModeBatch, Batch: &job}, execgen.ChildOpts{Timeout: 15 * time.Minute})
 	if ref.Err != nil || !ref.Complete || len(ref.Replies) != 1 || ref.Replies[0].Batch == nil {
-		return nil, ref.Output, 0, fmt.Errorf("reference child (programs alone, sequential) failed: err=%v complete=%v timedout=%v output=%.3000s", ref.Err, ref.Complete, ref.TimedOut, ref.Output)
+		return nil, nil, ref.Output, fmt.Errorf("reference child (programs alone, sequential) failed: err=%v complete=%v timedout=%v output=%.3000s", ref.Err, ref.Complete, ref.TimedOut, ref.Output)
 	}
-	if f := ref.Replies[0].Batch.SetupFail; f != "" {
-		return ref.Replies[0].Batch, ref.Output, 0, nil
+	if ref.Replies[0].Batch.SetupFail != "" {
+		return nil, ref.Replies[0].Batch, ref.Output, nil
 	}
-	bc.Job.Alone = ref.Replies[0].Batch.Alone
+	return ref.Replies[0].Batch.Alone, nil, ref.Output, nil
+}
+
+func runBatchAgainst(bc BatchCase, alone []execgen.StepTrace) (*execgen.BatchResult, string, int, error) {
+	bc.Job.Alone = alone
 	res := execgen.RunChild(execgen.Job{Mode: execgen.ModeBatch, Batch: &bc.Job}, execgen.ChildOpts{GoMaxProcs: bc.GoMaxProcs, Timeout: 15 * time.Minute, MaxOutput: 8 << 20})
 	other, nfx8 := raceReports(res.Output, bc.SkipFX8)
 	if len(other) > 0 {
@@ -277,8 +293,16 @@ func TestC36(t *testing.T) {
 		err error
 	}
 	outs := make([]outT, len(jobs))
+	// phase 1: the references (single-threaded children, 4 at a time); phase 2: the concurrent batches (2 at a time)
+	alones := make([][]execgen.StepTrace, len(jobs))
+	parallel(len(jobs), 4, func(k int) {
+		alones[k], outs[k].br, outs[k].out, outs[k].err = aloneReference(jobs[k].bc)
+	})
 	parallel(len(jobs), 2, func(k int) {
-		outs[k].br, outs[k].out, outs[k].fx8, outs[k].err = runBatchChildN(jobs[k].bc)
+		if outs[k].err != nil || outs[k].br != nil {
+			return
+		}
+		outs[k].br, outs[k].out, outs[k].fx8, outs[k].err = runBatchAgainst(jobs[k].bc, alones[k])
 	})
 	loads, hits := 0, 0
 	for k, j := range jobs {
